@@ -210,7 +210,7 @@ class Policy:
 
 class Scheduler:
     def __init__(self, n, policy, cap=200_000, observer=None, observe_at=(),
-                 on_quiescent=None):
+                 on_quiescent=None, observe_sites=frozenset(), observe_every=1):
         self.n = n
         self.policy = policy
         self.cap = cap
@@ -232,6 +232,10 @@ class Scheduler:
         self.observe_at = sorted(set(observe_at))
         self._oi = 0
         self.on_quiescent = on_quiescent
+        self.observe_sites = observe_sites
+        self.observe_every = max(int(observe_every), 1)
+        self._site_hits = 0
+        self._pending = [False] * n
         self.nquiescent = 0
         self.nobserved = 0
         self._hash = hashlib.sha256()
@@ -270,6 +274,19 @@ class Scheduler:
         if self.npoints > self.cap:
             self.capped = True
             return
+        if self._pending[k]:
+            # the line of a candidate operand mutation has just executed in this thread: look at the operands now
+            self._pending[k] = False
+            if self.observer is not None:
+                self.nobserved += 1
+                try:
+                    self.observer(k, kind, "after:" + str(loc))
+                except BaseException as e:
+                    self.errors.append(f"observer: {type(e).__name__}: {e}")
+        if kind == K_LINE and loc in self.observe_sites:
+            self._site_hits += 1
+            if self._site_hits % self.observe_every == 0:
+                self._pending[k] = True
         if self._oi < len(self.observe_at) and self.observe_at[self._oi] <= self.npoints:
             while self._oi < len(self.observe_at) and self.observe_at[self._oi] <= self.npoints:
                 self._oi += 1
